@@ -97,8 +97,10 @@ def judged(datatype, s):
         return False  # 1e999: syntactically a float, not representable
     if datatype == "B" and RE["B"].fullmatch(s) and s[0] == "f":
         return all(math.isfinite(float(x)) for x in s.split(",")[1:])
-    if datatype == "alignment_gfa2":
-        return True
+    if datatype == "B" and s[:1] in ("C", "S", "I") and "-0" in s:
+        return False  # "-0" in an unsigned array: in range by value, not by the unsigned syntax
+    if datatype == "alignment_gfa2" and "," in s and "+" in s:
+        return False  # explicit plus sign in a trace: <int> of the GFA2 grammar has none, tags allow it
     return True
 
 
